@@ -372,6 +372,10 @@ class LaplaceDomainExpression(LaplaceDomain, Expr):
             expr = self.approximate_exp(method='pade', order=2, numer_order=1)
 
         Hz = expr.generalized_bilinear_transform(alpha).subs(dt, dtval)
+        if not (expr.is_ratio or expr.is_undefined):
+            # generalized_bilinear_transform scales signal quantities
+            # by 1 / dt; the filter needs the plain substitution for s.
+            Hz = Hz * dtval
         fil = Hz.dlti_filter()
 
         a = [a1.fval for a1 in fil.a]
@@ -442,7 +446,7 @@ class LaplaceDomainExpression(LaplaceDomain, Expr):
         else:
             raise ValueError('Unknown method %s' % method)
 
-        return result * dtval
+        return result
 
     def state_space(self, form='CCF'):
         """Create state-space representation from transfer function.  Note,
